@@ -1,7 +1,7 @@
 (* C07 - pattern lists, exclusions, SPLIT and BRACE decompose into single-pattern matches.  Statements only. *)
 From WC Require Import Str WcParse WcSplit Expand Match.
 From WC.Gen Require Import Consts FlagFuns.
-From WC.Proofs Require Import C07Lemmas C07Neg.
+From WC.Proofs Require Import C07Lemmas C07Neg SplitLemmas.
 Import Mwcparse.
 Open Scope Z_scope.
 
@@ -52,3 +52,13 @@ Theorem C07_is_negative : forall fl c r,
   is_negative fl [] = false.
 Proof. exact is_negative_table. Qed.
 Print Assumptions C07_is_negative.
+
+(* SPLIT: for every pattern and flag word the pieces WcSplit returns are the text between `|` characters of the
+   pattern, in order: joining them with `|` restores the pattern (nothing lost, duplicated or re-ordered) *)
+Theorem C07_split_join : forall P flags p, join_with [cBAR] (wcsplit P flags p) = p.
+Proof. exact wcsplit_join. Qed.
+Print Assumptions C07_split_join.
+
+Theorem C07_split_cuts : forall P flags p, exists cuts, wcsplit P flags p = cut p 0 cuts /\ cuts_ok p 0 cuts.
+Proof. exact wcsplit_cuts. Qed.
+Print Assumptions C07_split_cuts.
